@@ -362,6 +362,19 @@ pub mod net {
     /// the connection of radar's gpsd thread
     const GPSD_ID: usize = usize::MAX;
 
+    impl Drop for TcpStream {
+        fn drop(&mut self) {
+            if self.id == GPSD_ID {
+                // the gpsd thread is done with its connection (it returned, or it is unwinding
+                // from a panic of its own): nothing is left to schedule
+                let mut g = super::GPSD.lock().unwrap_or_else(|e| e.into_inner());
+                g.state = super::GState::Dead;
+                g.go = false;
+                super::GPSD_CV.notify_all();
+            }
+        }
+    }
+
     fn do_connect(timeout: Option<Duration>) -> io::Result<TcpStream> {
         with_sim(|sim| {
             sim.step();
